@@ -302,7 +302,7 @@ def case_polygon(mon: Monitor, rng: random.Random) -> None:
         if rng.random() < 0.35:
             # multi-part queries (parts in one tile row / column, a tile or more apart; scattered) and polygons with a hole swallowing whole tiles:
             # tiles between the parts / inside the hole do not overlap the query
-            shape_kind = rng.choice(["multi-row", "multi-col", "multi-scatter", "hole"])
+            shape_kind = rng.choice(["multi-row", "multi-col", "multi-scatter", "hole", "multi-nested", "multi-nested"])
             i0, j0 = rng.randint(-3, 3), rng.randint(-3, 3)
             small = lambda i, j: sg.box(ox + (i + rng.uniform(0.1, 0.4)) * tw, oy + (j + rng.uniform(0.1, 0.4)) * th, ox + (i + rng.uniform(0.6, 0.9)) * tw, oy + (j + rng.uniform(0.6, 0.9)) * th)
             if shape_kind == "multi-row":
@@ -311,6 +311,15 @@ def case_polygon(mon: Monitor, rng: random.Random) -> None:
                 poly = sg.MultiPolygon([small(i0, j0), small(i0, j0 + rng.randint(2, 4))])
             elif shape_kind == "multi-scatter":
                 poly = sg.MultiPolygon([small(i0, j0), small(i0 + 2, j0 + rng.randint(1, 3)), small(i0 - 2, j0 + 3)])
+            elif shape_kind == "multi-nested":
+                # an L-shaped (or triangular) part whose bounding box covers tiles it does not touch, and another part - an island - inside one of those tiles; either order
+                corner = sg.box(ox + (i0 + 1.15) * tw, oy + (j0 + 1.15) * th, ox + (i0 + 3.2) * tw, oy + (j0 + 3.2) * th)
+                ell = sg.box(ox + (i0 + 0.2) * tw, oy + (j0 + 0.2) * th, ox + (i0 + 2.8) * tw, oy + (j0 + 2.8) * th).difference(corner)
+                if rng.random() < 0.4:
+                    ell = sg.Polygon([(ox + (i0 + 0.2) * tw, oy + (j0 + 0.2) * th), (ox + (i0 + 2.9) * tw, oy + (j0 + 0.2) * th), (ox + (i0 + 0.2) * tw, oy + (j0 + 2.9) * th)])
+                island = sg.box(ox + (i0 + 2.3) * tw, oy + (j0 + 2.3) * th, ox + (i0 + 2.7) * tw, oy + (j0 + 2.7) * th)
+                parts = [ell, island] if rng.random() < 0.7 else [island, ell]
+                poly = sg.MultiPolygon(parts) if rng.random() < 0.7 else sg.GeometryCollection(parts)
             else:
                 outer = sg.box(ox + (i0 - 0.5) * tw, oy + (j0 - 0.5) * th, ox + (i0 + 3.5) * tw, oy + (j0 + 3.5) * th)
                 poly = outer.difference(sg.box(ox + (i0 + 0.9) * tw, oy + (j0 + 0.9) * th, ox + (i0 + 2.1) * tw, oy + (j0 + 2.1) * th))
@@ -347,6 +356,15 @@ def case_polygon(mon: Monitor, rng: random.Random) -> None:
             if a > 0 or tile.distance(poly_native) <= (1e-6 if not cross else 1e-3) * max(tw, th):
                 may.add((ix, iy))
     ok = must <= got <= may and all(g == gs[i] for i, g in res)
+    if not cross and rng.random() < 0.5:
+        # the same question through the GeoJSON export (another public entry point): the features are the tiles of the answer, named "ix,iy"
+        gj, e_gj = call(gs.geojson, geopolygon=query)
+        try:
+            got_gj = {tuple(int(v) for v in f["properties"]["idx"].split(",")) for f in gj["features"]} if e_gj is None else None
+        except Exception as e_:  # noqa: BLE001
+            got_gj, e_gj = None, e_
+        mon.check(got_gj is not None and must <= got_gj <= may, "GridSpec.geojson", lambda: {**desc, "poly": pts, "got": sorted(got_gj) if got_gj is not None else None, "missing": sorted(must - (got_gj or set())),
+                  "extra": sorted((got_gj or set()) - may), "exc": e_gj}, key="polygon-query", cls="same-crs" if shape_kind == "polygon" else "same-crs|" + shape_kind)
     mon.check(ok, "GridSpec.tiles_from_geopolygon", lambda: {**desc, "poly": pts, "got": sorted(got), "missing": sorted(must - got), "extra": sorted(got - may)},
               key="polygon-query", cls="cross-crs" if cross else ("same-crs" if shape_kind == "polygon" else "same-crs|" + shape_kind), sig=hsig("P", (ny, nx), rx, ry, ox, oy, fx, fy, repr(pts)), sample={**desc, "poly": pts, "got": sorted(got)})
 
